@@ -178,8 +178,8 @@ impl Prop for C03P {
                 sec("pinned", 200),
                 sec("explicit-programs", tier.pick(10_000, 200_000)),
                 sec("inferred-programs", tier.pick(10_000, 200_000)),
-                sec("perturbed-explicit-programs", tier.pick(25_000, 500_000)),
-                sec("perturbed-inferred-programs", tier.pick(25_000, 500_000)),
+                sec("perturbed-explicit-programs", tier.pick(50_000, 500_000)),
+                sec("perturbed-inferred-programs", tier.pick(50_000, 500_000)),
                 crate::fw::sec_ex("polymorphic-instantiation-matrix", matrix_total().div_ceil(64)),
                 crate::fw::sec_ex("small-programs-exhaustive", crate::gen_small::total_upto(tier.pick(5, 6)).div_ceil(SMALL_BLOCK)),
             ],
